@@ -38,7 +38,11 @@ def sender_f(cfg, transport):
 # ----------------------------------------------------------------------------- two real stacks
 async def _link_scenario(sc, patch=None):
     rng = random.Random(sc["seed"])
-    net = rig.Net(2, seed=sc["seed"], max_delay=sc.get("max_delay", 0.002), controller_cfg=[dict(c) for c in sc["cfg"]])
+    by = sc.get("bystander")
+    cfgs = [dict(c) for c in sc["cfg"]]
+    if by:
+        cfgs.append(dict(sc["cfg"][1]))
+    net = rig.Net(3 if by else 2, seed=sc["seed"], max_delay=sc.get("max_delay", 0.002), controller_cfg=cfgs)
     excs = []
     asyncio.get_running_loop().set_exception_handler(lambda loop, c: excs.append(repr(c.get("exception") or c.get("message"))))
     if sc["transport"] == "bredr":
@@ -50,6 +54,13 @@ async def _link_scenario(sc, patch=None):
     else:
         cc, pc = await net.connect_classic(central, 1 - central)
     conns = {central: cc, 1 - central: pc}
+    by_conns = None
+    if by:
+        # a second link of device 0, to a bystander; it is torn down while device 0's fragments wait for buffers
+        if sc["transport"] == "le":
+            by_conns = await net.connect_le(0, 2)
+        else:
+            by_conns = await net.connect_classic(0, 2)
     await asyncio.sleep(2.0)
     if patch:
         patch(net)  # binding self-test shims
@@ -105,6 +116,10 @@ async def _link_scenario(sc, patch=None):
         net.stacks[d].host.send_l2cap_pdu(handles[d], 0x40 + (k % 16), w.payload_bytes(sc["seed"], f"{d}/{k}", L))
         if sc.get("pace") == "paced":
             await asyncio.sleep(rng.choice([0.0, 0.001, 0.05]))
+    if by:
+        if by.get("after"):
+            await asyncio.sleep(by["after"])
+        await by_conns[by["side"]].disconnect()
     # run until nothing moves any more (virtual time)
     idle = 0
     last = -1
